@@ -26,18 +26,8 @@ impl std::hash::Hash for Scalar {
     fn hash<H: std::hash::Hasher>(&self, state: &mut H) { unimplemented!() }
 }
 
-/// the String that holds exactly these characters (unique: prelude/strmap.rs axiom_string_ext)
-pub open spec fn string_of(c: Seq<char>) -> String { choose|s: String| s@ == c }
-
-pub proof fn lemma_string_of(s: String)
-    ensures string_of(s@) == s,
-{
-    broadcast use crate::strmap::axiom_string_ext;
-    let t = string_of(s@);
-    assert(t@ == s@);
-}
-
 /// the scalar called `name` of width `bits` (not in SSA form), as `il::scalar(name, bits)` builds it
+/// (`string_of`: units/C20/strlit.rs)
 pub open spec fn named_scalar(name: Seq<char>, bits: usize) -> Scalar {
     Scalar { name: string_of(name), bits, ssa: None }
 }
@@ -48,7 +38,7 @@ impl Scalar {
 //@ spec
     ensures /*@fields*/ r == named_scalar(into_string_chars(name), bits), /*@name*/ r.name@ == into_string_chars(name),
 //@ enter
-    proof { assert forall|s: String| #[trigger] string_of(s@) == s by { lemma_string_of(s); } }
+    proof { assert forall|s: String| #[trigger] string_of(s@) == s by { crate::strlit::lemma_string_of_view(s); } }
 //@ end
 
 //@ fn impl Scalar :: fn bits
